@@ -1863,6 +1863,16 @@ impl<'a, E: quiver_core::effects::Effect> Compiler<'a, E> {
                 result_type,
                 self.program,
             );
+        } else if self.is_nil(matched_type) && self.contains_nil(value_type) {
+            // The pattern matches exactly the value's nil variant (`=[]` on `T | []`): on the
+            // success path the value is nil. (A nil `result_type` alone would not tell this
+            // apart from a pattern that cannot match.)
+            apply_narrowing(
+                &mut self.scopes,
+                &value_provenance,
+                matched_type,
+                self.program,
+            );
         }
 
         // Record the narrowing for complement narrowing in blocks.
